@@ -683,6 +683,62 @@ def _skipped_members_are_noops(repo, gen):
     return True, '%s' % ', '.join(sorted({c.name for c in may_skip}))
 
 
+def check_pending_run_is_flushed_first(ctx, rule='R2-partition'):
+    """Round 8.  a generator that walks the fields once and collects the struct-coded ones in a
+    pending run (emitted by a flush step) must flush before it emits a block for any other field:
+    a block appended while the run is pending comes out before fields declared earlier"""
+    repo = ctx.repo
+    cg = repo.cls('CodeGenerator')
+    for mname, fi in cg.methods.items():
+        if not mname.startswith('generate_code'):
+            continue
+        for loop in [n for n in ast.walk(fi.node) if isinstance(n, ast.For)]:
+            # the accumulator: a local list to which the loop variable (or an element made of it) is appended
+            lv = {x.id for x in ast.walk(loop.target) if isinstance(x, ast.Name)}
+            accs = {canon(c.func.value) for c in ast.walk(loop) if isinstance(c, ast.Call) and isinstance(c.func, ast.Attribute) and c.func.attr == 'append'
+                    and isinstance(c.func.value, ast.Name) and c.args and isinstance(c.args[0], ast.Name) and c.args[0].id in lv}
+            if not accs:
+                continue
+            acc = sorted(accs)[0]
+            # flush steps: local functions (or statements) that clear the accumulator
+            flush_defs = {d.name for d in ast.walk(fi.node) if isinstance(d, ast.FunctionDef) and d is not fi.node and any(
+                (isinstance(x, ast.Delete) and any(canon(t.value) == acc for t in x.targets if isinstance(t, ast.Subscript))) or
+                (isinstance(x, ast.Call) and isinstance(x.func, ast.Attribute) and x.func.attr == 'clear' and canon(x.func.value) == acc) or
+                (isinstance(x, ast.Assign) and any(canon(t) == acc for t in x.targets)) for x in ast.walk(d))}
+            if not flush_defs:
+                continue
+            sinks = {canon(c.func.value) for d in ast.walk(fi.node) if isinstance(d, ast.FunctionDef) and d.name in flush_defs
+                     for c in ast.walk(d) if isinstance(c, ast.Call) and isinstance(c.func, ast.Attribute) and c.func.attr in ('append', 'extend')}
+            ctx.unit('single_pass_generators')
+
+            def clears(node):
+                return any((isinstance(x, ast.Delete) and any(isinstance(t, ast.Subscript) and canon(t.value) == acc for t in x.targets)) or
+                           (isinstance(x, ast.Call) and isinstance(x.func, ast.Attribute) and x.func.attr == 'clear' and canon(x.func.value) == acc) or
+                           (isinstance(x, ast.Assign) and any(canon(t) == acc for t in x.targets)) for x in ast.walk(node))
+
+            def scan(stmts, flushed):
+                for st in stmts:
+                    if isinstance(st, ast.If) and canon(st.test) in (acc, 'len(%s)' % acc, '(len(%s) > 0)' % acc) and clears(st) and not st.orelse:
+                        flushed = True          # the flush step expanded in place: if run: emit(run); clear
+                        continue
+                    if isinstance(st, ast.If):
+                        scan(st.body, flushed)
+                        scan(st.orelse, flushed)
+                        continue
+                    calls = [c for c in ast.walk(st) if isinstance(c, ast.Call)]
+                    if any(isinstance(c.func, ast.Name) and c.func.id in flush_defs for c in calls):
+                        flushed = True
+                    emits = [c for c in calls if isinstance(c.func, ast.Attribute) and c.func.attr in ('append', 'extend') and canon(c.func.value) in sinks
+                             and not any(isinstance(x, ast.Name) and x.id == acc for a_ in c.args for x in ast.walk(a_))]
+                    for c in emits:
+                        st_txt = '%s: %s' % (mname, stmt_text(st)[:90])
+                        if flushed:
+                            ctx.holds(rule, fi, st_txt, 'the pending run is emitted before this block', st.lineno, clause='c')
+                        else:
+                            ctx.violation(rule, fi, st_txt, 'a block is emitted for this field while the run of struct-coded fields collected so far (%s) is still pending: that run is emitted later, so the generated code packs / parses the fields out of declaration order' % acc, st.lineno, clause='c', witness=True)
+            scan(loop.body, False)
+
+
 def _same_sequence(v, name):
     if isinstance(v, ast.Call) and isinstance(v.func, ast.Name) and v.func.id in ('list', 'tuple') and len(v.args) == 1 and not v.keywords:
         return isinstance(v.args[0], ast.Name) and v.args[0].id == name
@@ -1251,6 +1307,7 @@ def check(ctx):
     check_skeletons(ctx)
     check_partition(ctx)
     check_struct_block(ctx)
+    check_pending_run_is_flushed_first(ctx)
     check_primitive_siblings(ctx)
     check_struct_code_owners(ctx)
     check_hook_siblings(ctx)
